@@ -74,13 +74,52 @@ fn items_from_json(v: &serde_json::Value) -> Vec<Item> {
 
 /// spec -> impl: programs (and prompt scripts) enumerated by TLC (MC_Driver generator configs)
 pub fn programs_from_tlc(path: &str, rng: &mut Rng) -> Vec<(Program, Layout)> {
+    programs_from_tlc_for(path, rng, false)
+}
+
+/// `valid_shapes`: the file holds well-formed instruction shapes (spec/MC_Asm.tla); one representative of every
+/// production (mnemonic x operand kinds x width x count kind) is put into a small program in front of two print
+/// statements, so that the source position recorded for every kind of instruction is exercised (C16)
+pub fn programs_from_tlc_for(path: &str, rng: &mut Rng, valid_shapes: bool) -> Vec<(Program, Layout)> {
     let text = std::fs::read_to_string(path).expect("program file");
     let mut v = Vec::new();
+    let mut seen: std::collections::HashSet<String> = std::collections::HashSet::new();
     for line in text.lines() {
         if line.trim().is_empty() {
             continue;
         }
         let j: serde_json::Value = serde_json::from_str(line).expect("program json");
+        if valid_shapes && j.get("cls").is_some() {
+            let cls = j["cls"].as_str().unwrap_or("");
+            if matches!(cls, "jcc" | "call" | "ret" | "int") || (cls == "ctl" && j["op"] == "hlt") {
+                continue;
+            }
+            let kind = |f: &str| -> String {
+                let o = &j[f];
+                if o.is_null() { return String::new(); }
+                let mut k = o["k"].as_str().unwrap_or("").to_string();
+                if k == "sreg" || (k.starts_with("reg") && cls == "push") || (k.starts_with("reg") && cls == "pop") { k.push_str(o["r"].as_str().unwrap_or("")); }
+                if k == "mem" { k.push_str(if o["form"]["seg"].as_str().unwrap_or("").is_empty() { "" } else { "+seg" }); }
+                k
+            };
+            let key = format!("{}|{}|{}|{}|{}|{}|{}|{}|{}|{}", cls, j["op"], j["mn"], j["w"], kind("dst"), kind("src"), kind("a"), kind("b"), j["cnt"]["k"], j["rep"]);
+            if !seen.insert(key) {
+                continue;
+            }
+            let ins = crate::checks2::ins_from_json(&j);
+            let data = vec![DataItem::Def { label: None, dir: "db", form: DataForm::Zero(4) }, DataItem::Def { label: Some("vdat".into()), dir: "dw", form: DataForm::Num(5) }];
+            let q = v.len();
+            let mut items = vec![Item::Label("vtgt".into()), Item::Proc { name: "vprc".into(), body: vec![Item::Ins(Ins::Ctl { op: "nop" })] }, Item::Label("start".into())];
+            if q % 3 == 0 { items.push(Item::Ins(Ins::Ctl { op: "nop" })); }
+            items.push(Item::Ins(ins));
+            items.push(Item::Ins(Ins::Print { what: PrintWhat::Flags }));
+            items.push(Item::Ins(Ins::UnArith { op: "inc", w: 16, dst: Opnd::Reg16("dx") }));
+            items.push(Item::Ins(Ins::Print { what: PrintWhat::Reg }));
+            let mut lay = Layout::plain();
+            lay.force = Some(Spelling { case: if q % 2 == 0 { Case::Lower } else { Case::Upper }, radix: [Radix::Dec, Radix::Hex, Radix::Bin][q % 3], wide: q % 5 == 0, nl: false });
+            v.push((Program { data, items, interp: q % 7 == 0, stdin: if q % 7 == 0 { nexts(rng, 12) } else { Vec::new() }, note: "shape-then-print".into() }, lay));
+            continue;
+        }
         if j.get("cls").is_some() {
             // a single (ill-formed) instruction shape from spec/MC_Asm.tla: wrap it in a minimal program
             let ins = crate::checks2::ins_from_json(&j);
@@ -111,7 +150,7 @@ pub fn gen_driver(prop: &str, rng: &mut Rng, sh: &mut Shards, out: &str, thoroug
     let dir = format!("{}/runs", out);
     let mut progs: Vec<(Program, Layout)> = Vec::new();
     if let Some(path) = tlc_programs {
-        let v = programs_from_tlc(path, rng);
+        let v = programs_from_tlc_for(path, rng, prop == "C16");
         sh.count("tlc-programs", v.len() as u64);
         progs.extend(v);
     }
